@@ -101,6 +101,19 @@ func genC12(r *rand.Rand) *c12Case {
 		}
 		cs.XFF = append(cs.XFF, strings.Join(parts, choose(r, []string{",", ", ", " ,"})))
 	}
+	if r.Intn(12) == 0 {
+		// a long chain of hops (padding by a client in front of a trusted balancer): every element counts, wherever it stands
+		pad := choose(r, c12Addrs)
+		n := choose(r, []int{8, 16, 31, 32, 33, 34, 50, 64, 100, 200, 500})
+		parts := make([]string, n)
+		for i := range parts {
+			parts[i] = pad
+		}
+		for k := 1 + r.Intn(2); k > 0; k-- {
+			parts[choose(r, []int{0, n - 1, n - 2, n / 2, r.Intn(n)})] = choose(r, c12Addrs)
+		}
+		cs.XFF = append(cs.XFF, strings.Join(parts, choose(r, []string{",", ", "})))
+	}
 	return cs
 }
 
@@ -290,6 +303,16 @@ func c12Auth(c *ctx) {
 		}
 		rec := httptest.NewRecorder()
 		var got bool
+		schemes := schemes
+		switch r.Intn(8) {
+		case 0: // an instance without any configured scheme: every named scheme is unknown there
+			schemes, expectOK = nil, false
+		case 1:
+			schemes, expectOK = map[string]auth.AuthScheme{}, false
+		}
+		if len(schemes) == 0 && scheme == "basic1" {
+			scheme = "basic1-but-not-configured"
+		}
 		if p := safely(func() { got = tg.Authorized(req, rec, schemes) }); p != "" {
 			c.R.Violate("c12:auth-panic", p, nil)
 			return
